@@ -16,13 +16,20 @@ def spec_for(params, returns, **extra):
     return {"order": ["m"], "modules": {"m": {"file": "m.py", "coq_module": "M", "imports": [], "functions": [f]}}}
 
 
+def spec_multi(funcs, **modextra):
+    """several functions / methods in one module; the outcome reported is that of the LAST one"""
+    m = {"file": "m.py", "coq_module": "M", "imports": [], "functions": funcs}
+    m.update(modextra)
+    return {"order": ["m"], "modules": {"m": m}}
+
+
 def outcome(src, spec):
     d = tempfile.mkdtemp()
     try:
         with open(os.path.join(d, "m.py"), "w") as fh:
             fh.write(src)
         (_, _, _, blocks), = pytrans.translate_blocks(d, spec).values()
-        (_, text, err), = blocks
+        (_, text, err) = blocks[-1]
         return text, err
     finally:
         shutil.rmtree(d)
@@ -159,6 +166,89 @@ CASES = [
     ("abstract callee translates", "from . import linalg\ndef f(a):\n    return linalg.point_distance(a, a)\n",
      spec_for(LF, "float", abstract_calls={"linalg.point_distance": {"param": "dist", "type": "fn(list[float],list[float])->float"}}),
      None),
+    # ---- third round: methods, self attributes, super(), **kwargs passed on, dict arguments
+    ("method with a function-typed self attribute translates",
+     "class C(object):\n    def m(self, a):\n        return self._g(a[0])\n",
+     spec_multi([dict(name="C.m", params=LF, returns="float", self_attrs={"_g": "fn(float)->float"})]), None),
+    ("self attribute that is not in the spec", "class C(object):\n    def m(self, a):\n        return self._h(a[0])\n",
+     spec_multi([dict(name="C.m", params=LF, returns="float", self_attrs={"_g": "fn(float)->float"})]), "self_attrs"),
+    ("self used as a value", "class C(object):\n    def m(self, a):\n        b = self\n        return a[0]\n",
+     spec_multi([dict(name="C.m", params=LF, returns="float")]), "not (definitely) bound"),
+    ("method call through self (dynamic dispatch)", "class C(object):\n    def m(self, a):\n        return self.n(a)\n    def n(self, a):\n        return a[0]\n",
+     spec_multi([dict(name="C.n", params=LF, returns="float"), dict(name="C.m", params=LF, returns="float")]), "self_attrs"),
+    ("assignment to a self attribute", "class C(object):\n    def m(self, a):\n        self._x = a[0]\n        return a[0]\n",
+     spec_multi([dict(name="C.m", params=LF, returns="float")]), "assignment target"),
+    ("self_attrs on a plain function", "def f(a):\n    return a[0]\n", spec_for(LF, "float", self_attrs={"_g": "fn(float)->float"}),
+     "plain function"),
+    ("super() call of the translated base method translates (self attributes and **kwargs passed on)",
+     "class B(object):\n    def m(self, a, **kwargs):\n        t = kwargs.get('t', 1.0)\n        return self._g(a[0]) + t\n"
+     "class C(B):\n    def m(self, a, **kwargs):\n        return super(C, self).m(a, **kwargs) * 2.0\n",
+     spec_multi([dict(name="B.m", params=LF, kwargs={"t": "float"}, returns="float", self_attrs={"_g": "fn(float)->float"}),
+                 dict(name="C.m", params=LF, kwargs={"t": "float"}, returns="float", self_attrs={"_g": "fn(float)->float"})]), None),
+    ("super() skips a class that does not define the method",
+     "class A(object):\n    def m(self, a):\n        return a[0]\nclass B(A):\n    def n(self, a):\n        return a[0]\n"
+     "class C(B):\n    def m(self, a):\n        return super(C, self).m(a)\n",
+     spec_multi([dict(name="A.m", params=LF, returns="float"), dict(name="C.m", params=LF, returns="float")]), None),
+    ("super() of another class", "class B(object):\n    def m(self, a):\n        return a[0]\nclass C(B):\n    def m(self, a):\n        return super(B, self).m(a)\n",
+     spec_multi([dict(name="B.m", params=LF, returns="float"), dict(name="C.m", params=LF, returns="float")]), "super() form"),
+    ("super() where the base method is not translated", "class B(object):\n    def m(self, a):\n        return a[0]\nclass C(B):\n    def m(self, a):\n        return super(C, self).m(a)\n",
+     spec_multi([dict(name="C.m", params=LF, returns="float")]), "is not translated"),
+    ("super() in a class with two bases", "class A(object):\n    pass\nclass B(object):\n    def m(self, a):\n        return a[0]\nclass C(B, A):\n    def m(self, a):\n        return super(C, self).m(a)\n",
+     spec_multi([dict(name="B.m", params=LF, returns="float"), dict(name="C.m", params=LF, returns="float")]), "exactly one base"),
+    ("super() in a class with a metaclass keyword", "class B(object):\n    def m(self, a):\n        return a[0]\nclass C(B, metaclass=M):\n    def m(self, a):\n        return super(C, self).m(a)\n",
+     spec_multi([dict(name="B.m", params=LF, returns="float"), dict(name="C.m", params=LF, returns="float")]), "exactly one base"),
+    ("super() in a class with a class attribute", "class B(object):\n    def m(self, a):\n        return a[0]\nclass C(B):\n    m2 = None\n    def m(self, a):\n        return super(C, self).m(a)\n",
+     spec_multi([dict(name="B.m", params=LF, returns="float"), dict(name="C.m", params=LF, returns="float")]), "something else than methods"),
+    ("super() in a class with an unknown decorator", "class B(object):\n    def m(self, a):\n        return a[0]\n@magic\nclass C(B):\n    def m(self, a):\n        return super(C, self).m(a)\n",
+     spec_multi([dict(name="B.m", params=LF, returns="float"), dict(name="C.m", params=LF, returns="float")]), "decorator"),
+    ("super() callee uses a self attribute the caller's spec lacks",
+     "class B(object):\n    def m(self, a):\n        return self._g(a[0])\nclass C(B):\n    def m(self, a):\n        return super(C, self).m(a)\n",
+     spec_multi([dict(name="B.m", params=LF, returns="float", self_attrs={"_g": "fn(float)->float"}), dict(name="C.m", params=LF, returns="float")]),
+     "not in the spec of this method"),
+    ("**kwargs passed on with a keyword the caller's spec lacks",
+     "class B(object):\n    def m(self, a, **kwargs):\n        t = kwargs.get('t', 1.0)\n        return a[0] + t\n"
+     "class C(B):\n    def m(self, a, **kwargs):\n        return super(C, self).m(a, **kwargs)\n",
+     spec_multi([dict(name="B.m", params=LF, kwargs={"t": "float"}, returns="float"), dict(name="C.m", params=LF, returns="float")]),
+     "not in the spec of this function"),
+    ("** of something else than the own **kwargs", "def g(a, **kwargs):\n    t = kwargs.get('t', 1.0)\n    return a[0] + t\ndef f(a, d):\n    return g(a, **d)\n",
+     spec_multi([dict(name="g", params=LF, kwargs={"t": "float"}, returns="float"), dict(name="f", params={"a": "list[float]", "d": "list[float]"}, returns="float")]),
+     "only the function's own"),
+    ("dict argument: a literal key of the declared set translates", "def f(d):\n    p = d['pts']\n    return p[d['n'][0]]\n",
+     spec_multi([dict(name="f", params={"d": "dict:rec"}, returns="float")], dicts={"rec": {"n": "list[int]", "pts": "list[float]"}}), None),
+    ("dict argument: a key that is not declared", "def f(d):\n    return d['q']\n",
+     spec_multi([dict(name="f", params={"d": "dict:rec"}, returns="float")], dicts={"rec": {"n": "list[int]", "pts": "list[float]"}}), "is not in the spec of the dict"),
+    ("dict argument: a computed key", "def f(d, k):\n    return d[k]\n",
+     spec_multi([dict(name="f", params={"d": "dict:rec", "k": "int"}, returns="float")], dicts={"rec": {"n": "list[int]", "pts": "list[float]"}}), "literal key"),
+    ("dict argument: undeclared dict type", "def f(d):\n    return d['n']\n",
+     spec_multi([dict(name="f", params={"d": "dict:rec"}, returns="list[int]")]), "is not in the spec (dicts)"),
+    ("dict argument: storing into the dict", "def f(d):\n    d['n'] = [1]\n    return 1.0\n",
+     spec_multi([dict(name="f", params={"d": "dict:rec"}, returns="float")], dicts={"rec": {"n": "list[int]", "pts": "list[float]"}}), "argument"),
+    ("dict argument: in-place update through a local name of a part",
+     "def f(d):\n    p = d['pts']\n    q = [0.0 for _ in p]\n    q[0] = 1.0\n    p[0] = 2.0\n    return q\n",
+     spec_multi([dict(name="f", params={"d": "dict:rec"}, returns="list[float]", alias_ok=True)], dicts={"rec": {"n": "list[int]", "pts": "list[float]"}}),
+     "part of a dict argument"),
+    ("dict argument: a local name of a part is rebound",
+     "def f(d):\n    p = d['pts']\n    p = [0.0 for _ in p]\n    return p\n",
+     spec_multi([dict(name="f", params={"d": "dict:rec"}, returns="list[float]", alias_ok=True)], dicts={"rec": {"n": "list[int]", "pts": "list[float]"}}),
+     "is rebound"),
+    ("dict argument: a variable with the name of a record projection",
+     "def f(d):\n    rec_n = d['n']\n    return rec_n\n",
+     spec_multi([dict(name="f", params={"d": "dict:rec"}, returns="list[int]")], dicts={"rec": {"n": "list[int]", "pts": "list[float]"}}),
+     "name of a record"),
+    ("iteration over a dict", "def f(d):\n    s = 0.0\n    for k in d:\n        s += 1.0\n    return s\n",
+     spec_multi([dict(name="f", params={"d": "dict:rec"}, returns="float")], dicts={"rec": {"n": "list[int]", "pts": "list[float]"}}), "iteration over"),
+    ("a tuple that is only ever indexed is a list (index by a variable) translates",
+     "def f(a, n):\n    d = (n, n + 1)\n    s = 0\n    for k in range(2):\n        s += d[k]\n    return s\n",
+     spec_for({"a": "list[float]", "n": "int"}, "int"), None),
+    ("a tuple that is also used as a whole stays a tuple",
+     "def f(a, n):\n    d = (n, n + 1)\n    s = 0\n    for k in range(2):\n        s += d[k]\n    e = d\n    return s\n",
+     spec_for({"a": "list[float]", "n": "int"}, "int"), "literal"),
+    ("a tuple bound twice stays a tuple",
+     "def f(a, n):\n    d = (n, n + 1)\n    d = (n, n)\n    s = 0\n    for k in range(2):\n        s += d[k]\n    return s\n",
+     spec_for({"a": "list[float]", "n": "int"}, "int"), "literal"),
+    ("copy.deepcopy translates", "import copy\ndef f(a):\n    b = copy.deepcopy(a)\n    return b\n", spec_for(LF, "list[float]"), None),
+    ("copy.copy is not understood", "import copy\ndef f(a):\n    b = copy.copy(a)\n    return b\n", spec_for(LF, "list[float]"), "not a translated function"),
+    ("copy.deepcopy without the import", "def f(a):\n    b = copy.deepcopy(a)\n    return b\n", spec_for(LF, "list[float]"), "not a translated function"),
 ]
 
 
@@ -196,7 +286,9 @@ def main():
         open(p, "w").write(s)
         buf = io.StringIO()
         pytrans.check(d, out=buf)
-        lines = [l for l in buf.getvalue().splitlines() if not l.startswith("SAME")]
+        # the evaluator methods call helpers.find_spans: they are UNTRANSLATABLE with it (reported per method); not counted here
+        lines = [l for l in buf.getvalue().splitlines() if not l.startswith("SAME")
+                 and not (l.startswith("UNTRANSLATABLE evaluators.") and ("find_spans" in l or "is not translated" in l))]
         ok = len(lines) == 2 and lines[0] == "DIFF helpers.basis_function" and lines[1].startswith("UNTRANSLATABLE helpers.find_spans")
         lines_sorted = sorted(lines)
         ok = ok or (len(lines) == 2 and lines_sorted[0] == "DIFF helpers.basis_function" and lines_sorted[1].startswith("UNTRANSLATABLE helpers.find_spans"))
